@@ -116,6 +116,75 @@ class World:
         except Exception as e:
             return 'exc', f'{type(e).__name__}: {e}'[:120]
 
+    # ---------------------------------------------------------------- description changed by a later module's initialisation
+    def run_control_pair(self):
+        """an output module whose 'controlled_by' enum is extended by the initModule of its controllers (register_input),
+        declared before or after them: the description (asked after the node is up) shows the final enum and every
+        emitted value is importable with it"""
+        r, rng = self.r, self.rng
+        import frappy.core as C
+        from frappy.mixins import HasControlledBy, HasOutputModule
+
+        class Out(HasControlledBy, C.Writable):
+            def read_value(self):
+                return 0.0
+
+            def write_target(self, v):
+                self.self_controlled()
+                return v
+
+        class Ctl(HasOutputModule, C.Writable):
+            def read_value(self):
+                return 0.0
+
+            def write_target(self, v):
+                self.activate_control()
+                if self.output_module:
+                    self.output_module.update_target(self.name, v)
+                return v
+        nctl = rng.choice([1, 2])
+        items = [('heater', {'cls': Out, 'description': 'output'})] + [(f'loop{i}', {'cls': Ctl, 'description': 'controller', 'output_module': 'heater'}) for i in range(nctl)]
+        rng.shuffle(items)
+        case = {'sub': 'control-pair', 'order': [k for k, _ in items]}
+        try:
+            node = self.nodes.Node(dict(items)).build()
+        except BaseException as e:
+            r.violation('C06/node-build-fails', f'(control pair) {type(e).__name__}: {e}'[:300], case)
+            return
+        r.count('control_pair_nodes')
+        disp = node.dispatcher
+        conn = self.nodes.Conn('c')
+        disp.add_connection(conn)
+        desc = self.describe(disp, conn, case)
+        if desc is None:
+            return
+        members = desc['modules']['heater']['accessibles']['controlled_by']['datainfo'].get('members')
+        real = node.secnode.modules['heater'].parameters['controlled_by'].datatype.export_datatype()['members']
+        if members != real or set(members) != {'self'} | {f'loop{i}' for i in range(nctl)}:
+            r.violation('C06/description-differs-from-datatype-in-use/controlled_by', f'described members {members}, the module uses {real} (declaration order {case["order"]})', case)
+            return
+        st, rep = self.ask(disp, conn, ('activate', None, None))
+        for who in [f'loop{i}' for i in range(nctl)] + ['heater']:
+            del conn.out[:]
+            st, rep = self.ask(disp, conn, ('change', f'{who}:target', 1.0))
+            for msg in conn.out:
+                if msg[0] == 'update':
+                    mn, _, an = msg[1].partition(':')
+                    if not self.check_emitted(desc, mn, an, msg[2][0], 'update', case):
+                        return
+            st, rep = self.ask(disp, conn, ('read', 'heater:controlled_by', None))
+            if st == 'ok' and not self.check_emitted(desc, 'heater', 'controlled_by', rep[2][0], 'read', case):
+                return
+        if not self.describe_again_equal(disp, conn, desc, case):
+            return
+
+    def describe_again_equal(self, disp, conn, desc, case):
+        st, d2 = self.ask(disp, conn, ('describe', None, None))
+        if st != 'ok' or json.loads(strict_dumps(d2[2])) != desc:
+            self.r.violation('C06/description-not-stable', 'the description differs after the node has been used', case)
+            return False
+        return True
+
     # ---------------------------------------------------------------- generated nodes
     def run_generated(self):
         r, rng = self.r, self.rng
@@ -591,6 +660,8 @@ def run_shard(shard):
     w = World(r, rng)
     for i in range(shard['n']):
         w.run_generated()
+        if i % 4 == 0:
+            w.run_control_pair()
     files = shipped_files()
     for k, f in enumerate(files):
         if k % 16 == shard['idx']:
